@@ -232,3 +232,25 @@ def d16_5(ctx):
                 inner = v.func.value
                 good = isinstance(inner, ast.Call) and attr_path(inner.func) == "KEYSWITCH.get" and len(inner.args) == 2 and ctx.folder.eval(inner.args[1], lx.module) == {} and src(inner.args[0]).replace('"', "'") == "info['status'][0]" and src(v.args[0]).replace('"', "'") == "info['status'][1]"
     ctx.check(good, ckey(lx.key + ".get_plc_info", "keyswitch"), gpi, "keyswitch = KEYSWITCH.get(status[0], {}).get(status[1], 'UNKNOWN')", "keyswitch lookup no longer defaults to 'UNKNOWN' on both levels")
+
+
+@rule(P, "D16.6", "T-DOM", floor=1)
+def d16_6(ctx):
+    """Identity strings of any length decode, including the empty product name (zero-count guard in the string member's decoder)."""
+    from ..codecs import zero_read_problems, effective
+    seen = set()
+    for cname in ("ModuleIdentityObject", "ListIdentityObject"):
+        c = ctx.model.cls(f"{CT}:{cname}")
+        call = c.factory_call
+        for a in (call.args if call is not None else []):
+            f = a.func if isinstance(a, ast.Call) else a
+            v = ctx.folder.eval(f, c.module) if isinstance(f, ast.Name) else None
+            if isinstance(v, ClassRef) and v.ci.has_base_named("StringDataType") and v.ci not in seen:
+                seen.add(v.ci)
+                probs = zero_read_problems(ctx, v.ci)
+                dd, dfn = effective(ctx, v.ci, "_decode")
+                key = ckey(c.key, f"string-member:{v.ci.name}")
+                if probs:
+                    ctx.violation(key, probs[0][0], f"{v.ci.name} member of {cname}: {probs[0][1]} (a device reporting an empty product name cannot be identified)")
+                else:
+                    ctx.ok(key, dfn, f"{v.ci.name}: zero-length names decode to '' (decoder {dd.name}._decode)")
